@@ -14,20 +14,29 @@ GT == <<"int", "str", "bool", "opt_int", "listint", "enum">>
 NoDef == [i \in 1..6 |-> V(GT[i], FALSE, NoVal)]
 WithDef == << V("int", TRUE, VInt(7)), V("str", TRUE, VStr("dflt")), V("bool", TRUE, VBool(FALSE)), V("opt_int", TRUE, VInt(5)),
               V("listint", TRUE, VList(<<1, 2>>)), V("enum", TRUE, VEnum("B")), V("int", TRUE, VNull), V("opt_int", TRUE, VNull) >>
-Variants == NoDef \o WithDef          \* 14 (type, default) variants of one parameter
+\* generic aliases: Optional[List[int]], Optional[Dict[str,int]], Optional[Tuple[int,str]] without default; Dict / Tuple
+NoDefX == << V("opt_listint", FALSE, NoVal), V("opt_dictint", FALSE, NoVal), V("opt_tupis", FALSE, NoVal), V("dictint", FALSE, NoVal), V("tupis", FALSE, NoVal) >>
+WithDefX == << V("dictint", TRUE, VDict([x \in {"a"} |-> 1])), V("tupis", TRUE, VTup(1, "x")) >>
+Variants == NoDef \o WithDef \o NoDefX \o WithDefX         \* 21 (type, default) variants of one parameter; 1..14 are the scalar / list ones
 NV == Len(Variants)
 Names == <<"a", "b", "c", "d", "e", "f">>
 
 \* values used on the command line (1: first assignment, 2: a later, different one), per declared type and channel
+RECURSIVE Val(_, _, _), Wrong(_, _)
 Val(t, src, w) ==
-  CASE t = "int"     -> IF w = 1 THEN VInt(3) ELSE VInt(-2)
+  CASE IsOpt(t) /\ t # "opt_int" -> IF w = 1 THEN Val(Unopt(t), src, 1) ELSE VNull
+    [] t = "dictint" -> IF w = 1 THEN VDict([x \in {"k"} |-> 3]) ELSE VDict(EmptyFn)
+    [] t = "tupis"   -> IF w = 1 THEN VTup(4, "y") ELSE VTup(5, "z")
+    [] t = "int"     -> IF w = 1 THEN VInt(3) ELSE VInt(-2)
     [] t = "str"     -> IF w = 1 THEN VStr("ab") ELSE (IF src = "argv" THEN VInt(12) ELSE VStr("cd"))
     [] t = "bool"    -> IF w = 1 THEN VBool(TRUE) ELSE VBool(FALSE)
     [] t = "opt_int" -> IF w = 1 THEN VInt(4) ELSE VNull
     [] t = "listint" -> IF w = 1 THEN VList(<<4, 5>>) ELSE VList(<< >>)
     [] t = "enum"    -> IF w = 1 THEN VStr("A") ELSE VStr("B")
 Wrong(t, src) ==
-  CASE t = "int"     -> VStr("ab")
+  CASE IsOpt(t) /\ t # "opt_int" -> Wrong(Unopt(t), src)
+    [] t \in {"dictint", "tupis"} -> VInt(3)
+    [] t = "int"     -> VStr("ab")
     [] t = "str"     -> IF src = "argv" THEN VBool(TRUE) ELSE VInt(12)      \* on the command line every text is a str
     [] t = "bool"    -> VInt(1)
     [] t = "opt_int" -> VBool(TRUE)
@@ -85,7 +94,10 @@ BuildF1(id) == LET v == id[2] m == id[3] ap == id[4] = 1 IN
   Case(id, ap, <<Leaf(<< >>, Fn("f", Sig(<<Variants[v]>>)))>>, LevelToks(Sig(<<Variants[v]>>), <<Modes[m]>>, ap, 0))
 \* F2: two parameters: every pair of variants x a square of modes
 M2 == IF Thorough THEN 1..NM ELSE {1, 2, 4, 7}
-F2 == {<<"F2", v1, v2, m1, m2>> : v1 \in 1..NV, v2 \in 1..NV, m1 \in M2, m2 \in M2}
+F2 == {<<"F2", v1, v2, m1, m2>> : v1 \in 1..14, v2 \in 1..14, m1 \in M2, m2 \in M2}
+      \cup {id \in {<<"F2", v1, v2, mm[1], mm[2]>> : v1 \in 1..NV, v2 \in 1..NV,
+                                                         mm \in (IF Thorough THEN {2, 3, 4, 7} \X {2, 3, 4, 7} ELSE {<<3, 3>>, <<4, 4>>, <<2, 4>>, <<1, 1>>})}
+               : id[2] > 14 \/ id[3] > 14}                                              \* pairs with a generic-alias variant
 BuildF2(id) == LET v1 == id[2] v2 == id[3] m1 == id[4] m2 == id[5] IN
   Case(id, TRUE, <<Leaf(<< >>, Fn("f", Sig(<<Variants[v1], Variants[v2]>>)))>>,
        LevelToks(Sig(<<Variants[v1], Variants[v2]>>), <<Modes[m1], Modes[m2]>>, TRUE, (v1 + m2) % 2))
@@ -106,7 +118,7 @@ FN(n) == {<<"FN", n, r, h, s>> : r \in 0..5, h \in 0..(2 ^ n - 1), s \in 0..(NM 
 BuildFN(id) == LET n == id[2] r == id[3] h == id[4] s == id[5] IN
   Case(id, (r + s) % 5 # 0, <<Leaf(<< >>, Fn("f", RotSig(n, r, h)))>>, LevelToks(RotSig(n, r, h), NeverAbsent(RotSig(n, r, h), RotModes(n, s), (r + s) % 5 # 0), (r + s) % 5 # 0, s % 2))
 \* F3full (thorough): three parameters, every triple of variants, modes rotating
-F3full == {<<"F3", v1, v2, v3, s>> : v1 \in 1..NV, v2 \in 1..NV, v3 \in 1..NV, s \in {0, 5}}
+F3full == {<<"F3", v1, v2, v3, s>> : v1 \in 1..14, v2 \in 1..14, v3 \in 1..14, s \in {0, 5}}
 BuildF3(id) == LET v1 == id[2] v2 == id[3] v3 == id[4] s == id[5] IN
   Case(id, TRUE, <<Leaf(<< >>, Fn("f", Sig(<<Variants[v1], Variants[v2], Variants[v3]>>)))>>,
        LevelToks(Sig(<<Variants[v1], Variants[v2], Variants[v3]>>), RotModes(3, s), TRUE, s % 2))
@@ -120,10 +132,25 @@ Pal == << << >>,                                                                
           Sig(<<WithDef[7], NoDef[5], NoDef[6]>>),                                      \* (a: int = None, *, b: List[int], c: Enum)
           <<P("_h", "pk", WithDef[1]), P("x", "pk", WithDef[3])>>,                      \* (_h: int = 7, x: bool = False)
           <<P("_h", "pk", NoDef[4]), P("x", "pk", WithDef[1])>>,                        \* (_h: Optional[int], x: int = 7)   the recorded deviation
-          <<P("bb", "pk", WithDef[5]), P("x", "pk", WithDef[1])>>                       \* (bb: List[int] = [1, 2], x: int = 7)   --b of a method is ambiguous (--bb, --bb+)
+          <<P("bb", "pk", WithDef[5]), P("x", "pk", WithDef[1])>>,                      \* (bb: List[int] = [1, 2], x: int = 7)   --b of a method is ambiguous (--bb, --bb+)
+          Sig(<<NoDefX[1], NoDefX[2], NoDefX[3]>>)                                      \* (a: Optional[List[int]], b: Optional[Dict[str,int]], *, c: Optional[Tuple[int,str]])   no defaults
        >>
 NP == Len(Pal)
 PalModes(ps, s) == [i \in 1..Len(ps) |-> Modes[((s + 3 * i) % NM) + 1]]
+
+\* every visible parameter of a level, as config settings
+AllMap(ps) == [x \in {ps[i].n : i \in {j \in 1..Len(ps) : ~RefHidden(ps[j])}} |-> Val(ParamOf(ps, x).t, "cfg", 1)]
+\* ONE config for the whole component: the settings of EVERY level, i.e. sections for all sibling sub-commands at every
+\* level; expl: the sub-commands along `sel` are selected by "subcommand" keys inside the config, otherwise implicitly
+RECURSIVE FullMap(_, _, _, _)
+FullMap(c0, l, sel, expl) ==
+  LET pm == AllMap(LvlParams(c0, l))
+      subs == LvlSubSeq(c0, l)
+      secs == {subs[j] : j \in {q \in 1..Len(subs) : DOMAIN FullMap(c0, l \o <<subs[q]>>, sel, expl) # {}}}
+      selk == IF expl /\ Len(subs) > 0 /\ Len(sel) > Len(l) /\ IsPrefixSeq(l, sel) THEN {"subcommand"} ELSE {}
+  IN [x \in (DOMAIN pm) \cup secs \cup selk |->
+        IF x \in selk THEN VStr(sel[Len(l) + 1])
+        ELSE IF x \in secs THEN VMap(FullMap(c0, l \o <<x>>, sel, expl)) ELSE pm[x]]
 
 \* K: a class with 1..3 methods; the init and the called method get rotating modes; explicit sub-command word,
 \*    or everything in one config (implicit selection)
@@ -144,10 +171,14 @@ BuildK(id) ==
             [] form = 2 -> (IF DOMAIN section = {} THEN explicit ELSE implicit)
             [] form = 3 -> (IF DOMAIN section = {} THEN explicit ELSE mixed)
             [] form = 4 -> LevelToks(init, PalModes(init, s), TRUE, 0)                                   \* no sub-command at all
+            [] form = 6 -> <<CfgTok(FullMap([leaves |-> <<Leaf(<< >>, comp)>>], << >>, <<MethNames[call]>>, TRUE))>>    \* selected inside the config, sibling sections
+            [] form = 7 -> <<CfgTok(FullMap([leaves |-> <<Leaf(<< >>, comp)>>], << >>, <<MethNames[call]>>, FALSE))>>   \* implicit, several sibling sections
             [] OTHER    -> LevelToks(init, PalModes(init, s), TRUE, 0) \o <<PosTok(VStr("zz"))>>)        \* unknown sub-command
-KS == IF Thorough THEN {0, 2, 3, 5, 7, 9} ELSE {0, 3, 7}
+KS == IF Thorough THEN {0, 2, 3, 5, 7, 9} ELSE {0, 7}
 K1 == {<<"K", i0, <<j>>, 1, s, f>> : i0 \in 1..NP, j \in 1..NP, s \in KS, f \in 1..5}
-K2 == {<<"K", i0, <<j1, j2>>, c, s, f>> : i0 \in {1, 2, 4, 7, 9}, j1 \in 1..NP, j2 \in {1, 3, 5}, c \in 1..2, s \in KS, f \in 1..3}
+K2 == {<<"K", i0, <<j1, j2>>, c, s, f>> : i0 \in {1, 2, 4, 7, 9, 10}, j1 \in 1..NP, j2 \in {1, 3, 5}, c \in 1..2, s \in KS, f \in 1..3}
+KX == {<<"K", i0, <<j1, j2>>, c, 0, f>> : i0 \in {1, 2, 4, 7, 9, 10}, j1 \in 1..NP, j2 \in {1, 3, 5}, c \in 1..2, f \in 6..7}
+      \cup {<<"K", i0, <<j1, j2, 3>>, c, 0, f>> : i0 \in {1, 3}, j1 \in {2, 4, 6, 10}, j2 \in {3, 5}, c \in 1..3, f \in 6..7}
 K3 == {<<"K", i0, <<j1, j2, 1>>, c, s, f>> : i0 \in {1, 3}, j1 \in {2, 4, 6}, j2 \in {3, 5}, c \in 1..3, s \in KS, f \in 1..2}
 
 \* T: lists and nested dicts of functions (and a class inside them)
@@ -156,7 +187,7 @@ TLeaves(shape, j1, j2, j3) ==
     [] shape = 2 -> <<Leaf(<<"f">>, Fn("f", Pal[j1])), Leaf(<<"g">>, Fn("g", Pal[j2])), Leaf(<<"h">>, Fn("h", Pal[j3]))>>       \* [f, g, h]
     [] shape = 3 -> <<Leaf(<<"grp", "f">>, Fn("f", Pal[j1])), Leaf(<<"grp", "g">>, Fn("g", Pal[j2])), Leaf(<<"h">>, Fn("h", Pal[j3]))>>   \* {"grp": {"f": f, "g": g}, "h": h}
     [] shape = 4 -> <<Leaf(<<"top", "mid", "f">>, Fn("f", Pal[j1])), Leaf(<<"top", "g">>, Fn("g", Pal[j2])), Leaf(<<"h">>, Fn("h", Pal[j3]))>>
-    [] shape = 5 -> <<Leaf(<<"K">>, Cls("K", Pal[j1], <<Meth("m1", Pal[j2])>>)), Leaf(<<"h">>, Fn("h", Pal[j3]))>>               \* [K, h]
+    [] shape = 5 -> <<Leaf(<<"K">>, Cls("K", Pal[j1], <<Meth("m1", Pal[j2]), Meth("m2", Pal[j3])>>)), Leaf(<<"h">>, Fn("h", Pal[j3]))>>   \* [K, h]
     [] OTHER     -> <<Leaf(<<"grp", "K">>, Cls("K", Pal[j1], <<Meth("m1", Pal[j2]), Meth("m2", Pal[j3])>>)), Leaf(<<"f">>, Fn("f", Pal[j3]))>>
 RECURSIVE Words(_), NestMap(_, _)
 Words(path) == IF path = << >> THEN << >> ELSE <<PosTok(VStr(Head(path)))>> \o Words(Tail(path))
@@ -177,13 +208,16 @@ BuildT(id) ==
             [] form = 2 -> (IF DOMAIN section = {} \/ iscls THEN explicit ELSE rootcfg)                                       \* implicit selection by config
             [] form = 3 -> (IF DOMAIN section = {} THEN explicit ELSE rootcfg \o Words(lf.path) \o tail)                      \* config first, then the words
             [] form = 4 -> Words(FrontSeq(lf.path))                                                                          \* stops before the leaf
+            [] form = 6 -> <<CfgTok(FullMap([leaves |-> leaves], << >>, lf.path \o (IF iscls THEN <<"m1">> ELSE << >>), TRUE))>>     \* selected inside the config at every level
+            [] form = 7 -> <<CfgTok(FullMap([leaves |-> leaves], << >>, lf.path \o (IF iscls THEN <<"m1">> ELSE << >>), FALSE))>>    \* implicit at every level, sibling sections
             [] OTHER    -> Words(FrontSeq(lf.path)) \o <<PosTok(VStr("zz"))>>)
 TS == IF Thorough THEN {0, 3, 4, 8} ELSE {0, 3}
-TJ == IF Thorough THEN 1..NP ELSE {2, 3, 5, 7}
+TJ == IF Thorough THEN 1..NP ELSE {2, 3, 5, 10}
+TX == {<<"T", sh, j1, j2, j3, w, 0, f>> : sh \in 1..6, j1 \in TJ, j2 \in {4, 6, 10}, j3 \in {1, 3}, w \in 1..3, f \in 6..7}
 T == {<<"T", sh, j1, j2, j3, w, s, f>> : sh \in 1..6, j1 \in TJ, j2 \in (IF Thorough THEN {1, 4, 6} ELSE {4, 6}), j3 \in {1, 3}, w \in 1..3, s \in TS, f \in 1..5}
 
-Ids == IF Thorough THEN F1 \cup F2 \cup FN(3) \cup FN(4) \cup FN(5) \cup FN(6) \cup F3full \cup K1 \cup K2 \cup K3 \cup T
-       ELSE F1 \cup F2 \cup FN(3) \cup FN(4) \cup K1 \cup K2 \cup K3 \cup T
+Ids == IF Thorough THEN F1 \cup F2 \cup FN(3) \cup FN(4) \cup FN(5) \cup FN(6) \cup F3full \cup K1 \cup K2 \cup K3 \cup KX \cup T \cup TX
+       ELSE F1 \cup F2 \cup FN(3) \cup FN(4) \cup K1 \cup K2 \cup K3 \cup KX \cup T \cup TX
 CaseOf(id) == CASE id[1] = "F1" -> BuildF1(id) [] id[1] = "F2" -> BuildF2(id) [] id[1] = "FN" -> BuildFN(id)
                 [] id[1] = "F3" -> BuildF3(id) [] id[1] = "K" -> BuildK(id) [] id[1] = "T" -> BuildT(id)
 
